@@ -619,8 +619,8 @@ theorem knot_focus_widget_eq_model (e : EOracle) (n : Nat) (s : St) (w : Id) :
     `focusHandler.handleEvent`, `mouseHandler.handleEvent`, `mouseEnter`, `mouseExit`, `update`, `updatePath`, whose callees
     `app.handleCommand` (= the knot), `m.update`, `f.findPath`, `f.focusWidget`, `hitTest`, `containsPoint`, `childHasFocus` are
     executed bodies too.  Not executed syntax: `select` / channel / timer, the three statements of the prologue, the widgets' `Draw`
-    (oracle trees), `sort.Slice` (`sortTree`), and inside `mouseHandler.update` the `app.handleCommand` calls of the hover
-    notifications (`eHandleCommand`, equal to the knot by `knot_eq_model`).  Every history, oracle, failing-call set; final state
+    (oracle trees) and `sort.Slice` (`sortTree`) — no model function of the dispatch is left (the `app.handleCommand` calls of the
+    hover notifications inside `mouseHandler.update` are the knot too).  Every history, oracle, failing-call set; final state
     (whole trace) and returned error. -/
 theorem run_knot_eq_model (e : EOracle) (fuel : Nat) (root : Id) (t0 : STree) (steps : List Step) :
     kRun genAll e fuel root t0 steps = some (eRun e (fuel + 1) root t0 steps) := by
